@@ -150,6 +150,74 @@ theorem C10m_scale_hlrf (T : Model ℝ) (g : Vec ℝ → ℝ) (dg : Vec ℝ → 
   unfold hlrf
   rw [C10m_scale_loop T g dg k hk tol]
 
+/-! ### what a returned result is -/
+
+/-- every outcome of the loop is one HL-RF step from some iterate; a `converged` outcome passed the tolerance test -/
+theorem loop_outcome (T : Model ℝ) (g : Vec ℝ → ℝ) (dg : Vec ℝ → Vec ℝ) (tol : ℝ) :
+    ∀ fuel done u, 0 < fuel →
+      (∀ steps it, loop T g dg tol fuel done u = .converged steps it →
+        ∃ uprev, it = step T g dg uprev ∧ norm T.dim (vsub (step T g dg uprev).u uprev) < tol) ∧
+      (∀ it, loop T g dg tol fuel done u = .exhausted it → ∃ uprev, it = step T g dg uprev) := by
+  intro fuel
+  induction fuel with
+  | zero => intro done u h; omega
+  | succ f ih =>
+    intro done u _
+    unfold loop
+    by_cases hc : Transc.ltb (norm T.dim (vsub (step T g dg u).u u)) tol = true
+    · simp only [hc, if_true]
+      refine ⟨?_, ?_⟩
+      · intro steps it h
+        simp only [Outcome.converged.injEq] at h
+        exact ⟨u, h.2.symm, (ltb_real _ _).mp hc⟩
+      · intro it h; cases h
+    · simp only [hc]
+      by_cases hf : f = 0
+      · subst hf
+        simp only [if_true, Bool.false_eq_true, if_false]
+        refine ⟨?_, ?_⟩
+        · intro steps it h; cases h
+        · intro it h
+          simp only [Outcome.exhausted.injEq] at h
+          exact ⟨u, h.symm⟩
+      · simp only [hf, if_false, Bool.false_eq_true]
+        exact ih (done + 1) (step T g dg u).u (by omega)
+
+/-- **whenever the model of `hlrfFORM` returns**: the returned `( β, u*, x* )` is one HL-RF step from some iterate `u`, so
+`x*` is the Nataf image of `u*`, `‖u*‖ = |β|` (when the gradient there does not vanish), and - unless `iter = 1`, where no
+convergence is expected - the step was shorter than `tol`, hence `|g( T(u) )| < tol · ‖∇G‖` at the last evaluation point -/
+theorem C10m_hlrf_return (T : Model ℝ) (g : Vec ℝ → ℝ) (dg : Vec ℝ → Vec ℝ) (tol : ℝ) (iter : Nat) (hiter : 1 ≤ iter)
+    (beta : ℝ) (ustar xstar : Vec ℝ) (h : hlrf T g dg tol iter = some (beta, ustar, xstar)) :
+    ∃ u, beta = (step T g dg u).beta ∧ ustar = (step T g dg u).u ∧ xstar = getX T ustar ∧
+      (norm T.dim (gradU T (getX T u) (dg (getX T u))) ≠ 0 → norm T.dim ustar = |beta|) ∧
+      (iter ≠ 1 → norm T.dim (vsub ustar u) < tol ∧
+        (norm T.dim (gradU T (getX T u) (dg (getX T u))) ≠ 0 →
+          |g (getX T u)| < tol * norm T.dim (gradU T (getX T u) (dg (getX T u))))) := by
+  unfold hlrf at h
+  obtain ⟨hconv, hexh⟩ := loop_outcome T g dg tol iter 0 (fun _ => one) (by omega)
+  cases hl : loop T g dg tol iter 0 (fun _ => one) with
+  | converged steps it =>
+    rw [hl] at h
+    simp only [Option.some.injEq, Prod.mk.injEq] at h
+    obtain ⟨uprev, hit, htol⟩ := hconv steps it hl
+    obtain ⟨hb, hu, hx⟩ := h
+    refine ⟨uprev, by rw [← hb, hit], by rw [← hu, hit], by rw [← hx, ← hu], ?_, ?_⟩
+    · intro hg; rw [← hu, ← hb, hit]; exact C10m_step_norm T g dg uprev hg
+    · intro _
+      refine ⟨by rw [← hu, hit]; exact htol, fun hg => C10m_residual_bound T g dg uprev tol hg htol⟩
+  | exhausted it =>
+    rw [hl] at h
+    dsimp only at h
+    by_cases h1 : iter = 1
+    · rw [if_pos h1] at h
+      simp only [Option.some.injEq, Prod.mk.injEq] at h
+      obtain ⟨uprev, hit⟩ := hexh it hl
+      obtain ⟨hb, hu, hx⟩ := h
+      refine ⟨uprev, by rw [← hb, hit], by rw [← hu, hit], by rw [← hx, ← hu], ?_, fun hne => absurd h1 hne⟩
+      intro hg; rw [← hu, ← hb, hit]; exact C10m_step_norm T g dg uprev hg
+    · rw [if_neg h1] at h
+      cases h
+
 /-! ### linear limit state, normal marginals -/
 
 /-- all marginals normal -/
